@@ -473,6 +473,48 @@ func mismatchPublic(t *engine.T, ks []*key) {
 					}
 					t.Outcome("mismatch/refused/" + container)
 				}
+				// SEC1 / PKCS#8: the optional publicKey field is not authenticated by anything; a container whose field
+				// names another valid point either is refused or yields the key of the scalar (public part d*G) - never a
+				// key object whose halves belong to different keys
+				{
+					wantPub := refSM2Pub(sc.d)
+					sec1 := handSEC1(b32(sc.d), pub)
+					p8 := handPKCS8EC(sec1)
+					judgeEC := func(container string, parse func() (any, error), der []byte) {
+						key := "mismatch/" + container + "/public=" + a.name + "/scalar=" + sc.name
+						t.Eval(1)
+						t.Nontrivial(key + "/" + k.class())
+						var g any
+						var err error
+						if t.Guard(key, func() { g, err = parse() }) {
+							return
+						}
+						if err != nil || isNil(g) {
+							if expectOK {
+								t.Fail("mismatch/"+container+"/control-refused", "key %s: the matching pair is refused: %v; der=%s", k.name, err, engine.Hex(der))
+							}
+							t.Outcome("mismatch/refused/" + container)
+							return
+						}
+						var gx, gy *big.Int
+						switch v := g.(type) {
+						case *sm2.PrivateKey:
+							gx, gy = v.X, v.Y
+						case *ecdsa.PrivateKey:
+							gx, gy = v.X, v.Y
+						}
+						d := scalarOf(g)
+						if d == nil || d.Cmp(sc.d) != 0 || gx == nil || gx.Cmp(wantPub.X) != 0 || gy.Cmp(wantPub.Y) != 0 {
+							t.Fail(key+"/hybrid-key-returned", "key %s: scalar %s with embedded public key %s decodes to a key with D=%x and public (%x,%x); the scalar's own public point is (%x,%x); der=%s", k.name, sc.name, a.name, d, gx, gy, wantPub.X, wantPub.Y, engine.Hex(der))
+							return
+						}
+						t.Outcome("mismatch/scalar-key-returned/" + container)
+					}
+					judgeEC("sec1", func() (any, error) { return smx509.ParseECPrivateKey(sec1) }, sec1)
+					judgeEC("sec1-sm2", func() (any, error) { return smx509.ParseSM2PrivateKey(sec1) }, sec1)
+					judgeEC("pkcs8", func() (any, error) { return smx509.ParsePKCS8PrivateKey(p8) }, p8)
+					judgeEC("pkcs8-pkg", func() (any, error) { return pkcs8.ParsePKCS8PrivateKey(p8) }, p8)
+				}
 				env, err := handEnvelope(rp, b32(sc.d), pub, lane("mismatch/env"+a.name+sc.name))
 				if err != nil {
 					t.Fail("mismatch/sm2-enveloped/setup", "%v", err)
@@ -494,6 +536,37 @@ func mismatchPublic(t *engine.T, ks []*key) {
 			}
 		}
 	}
+}
+
+// handSEC1 is RFC 5915 ECPrivateKey{1, d, [0] sm2 curve, [1] publicKey} built by hand (the public key is whatever
+// the caller passes).
+func handSEC1(d, pub []byte) []byte {
+	type ecPriv struct {
+		Version    int
+		PrivateKey []byte
+		Curve      asn1.ObjectIdentifier `asn1:"optional,explicit,tag:0"`
+		PublicKey  asn1.BitString        `asn1:"optional,explicit,tag:1"`
+	}
+	der, err := asn1.Marshal(ecPriv{1, d, asn1.ObjectIdentifier{1, 2, 156, 10197, 1, 301}, asn1.BitString{Bytes: pub, BitLength: 8 * len(pub)}})
+	if err != nil {
+		panic(err)
+	}
+	return der
+}
+
+// handPKCS8EC wraps a SEC1 structure into an unencrypted PKCS#8 PrivateKeyInfo (id-ecPublicKey, SM2 curve).
+func handPKCS8EC(sec1 []byte) []byte {
+	type p8 struct {
+		Version int
+		Algo    pkix.AlgorithmIdentifier
+		Key     []byte
+	}
+	curve, _ := asn1.Marshal(asn1.ObjectIdentifier{1, 2, 156, 10197, 1, 301})
+	der, err := asn1.Marshal(p8{0, pkix.AlgorithmIdentifier{Algorithm: asn1.ObjectIdentifier{1, 2, 840, 10045, 2, 1}, Parameters: asn1.RawValue{FullBytes: curve}}, sec1})
+	if err != nil {
+		panic(err)
+	}
+	return der
 }
 
 // ---- the enveloped key under scripted randomness (dimension 10): extreme SM4 wrapping keys and nonce candidates the
